@@ -14,8 +14,20 @@ def _same(v, oracle):
     if _HEAD[0] is not None and oracle.endswith('raises'):
         # "program-raises: IndexError ..." is not "program-raises:
         # POSKeyError ...": a shrunk case must fail the same way
-        return v['detail'].split(':')[0].strip() == _HEAD[0]
+        return _exc_name(v['detail']) == _HEAD[0]
     return True
+
+
+def _exc_name(detail):
+    """The exception class a "...raises" detail names: its first
+    ':'-separated field that looks like one ("where: POSKeyError: ...")."""
+    for part in detail.split(':')[:3]:
+        part = part.strip()
+        if part.isidentifier() and part[:1].isupper() and \
+                part.endswith(('Error', 'Exception', 'Interrupt', 'Exit',
+                               'Timeout')):
+            return part
+    return None
 
 
 def _fails(mod, case, oracle):
@@ -144,10 +156,8 @@ def minimise_schedule(mod, case, oracle, deadline):
 
 
 def shrink(mod, case, violation, deadline):
-    head = violation.get('detail', '').split(':')[0].strip()
-    # (only where the detail starts with the exception's class name)
-    _HEAD[0] = head if violation['oracle'].endswith('raises') and \
-        head.isidentifier() and head[:1].isupper() else None
+    _HEAD[0] = _exc_name(violation.get('detail', '')) \
+        if violation['oracle'].endswith('raises') else None
     case = _shrink(mod, case, violation, deadline)
     try:
         return minimise_schedule(mod, case, violation['oracle'],
